@@ -7,6 +7,8 @@ kinds: temp  (x = A op B  ->  _t = A; x = _t op B)
        neg   (if c: X else: Y  ->  if not c: Y else: X)
        swap  (adjacent independent call-free assignments exchanged)
        ifexp (x = a if c else b  ->  if c: x = a / else: x = b)
+       fnrename (module-level private function _f renamed to _f_rn at its definition and at every use in its module)
+       addkw (every library function gains a keyword-only parameter `_probe=None`)
 usage: tools/refactor_probe.py <props|all> kind[,kind...] [file.py ...]
 """
 import ast, os, shutil, subprocess, sys, tempfile
@@ -95,12 +97,49 @@ class T(ast.NodeTransformer):
         return node
 
 
+def fnrename(tree):
+    priv = {st.name for st in tree.body if isinstance(st, ast.FunctionDef) and st.name.startswith("_") and not st.name.startswith("__")}
+    # names also bound otherwise (assigned, imported) or used as strings are left alone
+    for n in ast.walk(tree):
+        if isinstance(n, ast.Name) and isinstance(n.ctx, ast.Store) and n.id in priv:
+            priv.discard(n.id)
+        if isinstance(n, ast.Constant) and isinstance(n.value, str) and n.value in priv:
+            priv.discard(n.value)
+        if isinstance(n, ast.alias) and (n.asname or n.name) in priv:
+            priv.discard(n.asname or n.name)
+    for n in ast.walk(tree):
+        if isinstance(n, ast.FunctionDef) and n.name in priv and n in tree.body:
+            n.name += "_rn"
+            count["fnrename"] += 1
+        elif isinstance(n, ast.Name) and n.id in priv:
+            n.id += "_rn"
+    return priv
+
+
+def addkw(tree):
+    def visit(node, depth):
+        for ch in ast.iter_child_nodes(node):
+            if isinstance(ch, ast.FunctionDef) and depth < 2:
+                if not any(a.arg == "_probe" for a in ch.args.kwonlyargs) and not ch.name.startswith("__"):
+                    ch.args.kwonlyargs.append(ast.arg("_probe"))
+                    ch.args.kw_defaults.append(ast.Constant(None))
+                    count["addkw"] += 1
+            elif isinstance(ch, ast.ClassDef):
+                visit(ch, depth + 1)
+    visit(tree, 0)
+
+
+renamed_private = {}
 for root in ("sasmodels", "sasmodels/custom"):
     for f in sorted(os.listdir(os.path.join(dst, root))):
         if not f.endswith(".py") or (only and f not in only):
             continue
         p = os.path.join(dst, root, f)
         tree = ast.parse(open(p).read())
+        if "fnrename" in kinds:
+            renamed_private[f] = fnrename(tree)
+        if "addkw" in kinds:
+            addkw(tree)
         tree = T().visit(tree)
         ast.fix_missing_locations(tree)
         open(p, "w").write(ast.unparse(tree) + "\n")
